@@ -215,12 +215,16 @@ func deriveVMEffects(pkg *packages.Package) (*vmTable, string) {
 		return nil, "(*VM).Run: no switch over Opcode"
 	}
 	tbl := &vmTable{effects: map[string]*opEffect{}, problem: map[string]string{}}
+	decls := map[*types.Func]*FuncDecl{}
+	for _, fd := range Funcs(pkg) {
+		decls[fd.Obj] = fd
+	}
 	for _, st := range sw.Body.List {
 		cc, ok := st.(*ast.CaseClause)
 		if !ok || cc.List == nil {
 			continue
 		}
-		w := &vmWalker{info: info, popCount: popCount, push: pushFn.Obj, operand: map[types.Object]bool{}}
+		w := &vmWalker{info: info, popCount: popCount, decls: decls, push: pushFn.Obj, operand: map[types.Object]bool{}}
 		if dropFn != nil {
 			w.drop = dropFn.Obj
 		}
@@ -272,6 +276,9 @@ type vmPath struct {
 type vmWalker struct {
 	info                  *types.Info
 	popCount              map[*types.Func]int
+	decls                 map[*types.Func]*FuncDecl // functions of the package, for helpers whose effect depends on an argument
+	inHelper              bool                      // a return is the helper's normal exit, not the end of the run
+	depth                 int
 	push, drop            *types.Func
 	operand               map[types.Object]bool
 	condGuard             string
@@ -328,11 +335,86 @@ func (w *vmWalker) calls(n ast.Node, p vmPath) vmPath {
 		default:
 			if k, has := w.popCount[cf]; has {
 				p.pops = p.pops.add(slinConst(k), 1)
+			} else if po, pu, prm, ok := w.helperEffect(cf); ok {
+				// a method of the VM whose stack effect depends on one int argument (popArrayElements(n))
+				sub := slinConst(0)
+				if prm >= 0 {
+					var isOp bool
+					if prm < len(call.Args) {
+						sub, isOp = w.operandSym(call.Args[prm])
+					}
+					if !isOp {
+						w.problem = cf.Name() + "(…): its stack effect depends on an argument that is neither the operand nor a constant"
+						return true
+					}
+				}
+				subst := func(e slin) slin {
+					out := slin{}
+					for k, c := range e {
+						if k == "N" {
+							out = out.add(sub, c)
+						} else {
+							out = out.add(slin{k: 1}, c)
+						}
+					}
+					return out
+				}
+				p.pops, p.pushes = p.pops.add(subst(po), 1), p.pushes.add(subst(pu), 1)
 			}
 		}
 		return true
 	})
 	return p
+}
+
+// helperEffect: the stack effect of a helper with a body that pops or pushes in a way the straight-line summary does
+// not cover (a loop over an int parameter). The effect is stated over "N", the value of parameter prm (-1: none).
+func (w *vmWalker) helperEffect(cf *types.Func) (pops, pushes slin, prm int, ok bool) {
+	fd := w.decls[cf]
+	if fd == nil || fd.Decl.Body == nil || w.depth >= 2 || cf == w.push || cf == w.drop {
+		return nil, nil, -1, false
+	}
+	if rn := recvNamed(cf); rn == nil || rn.Obj().Name() != "VM" {
+		return nil, nil, -1, false // only methods of the VM can touch its stack
+	}
+	hw := &vmWalker{info: w.info, popCount: w.popCount, decls: w.decls, push: w.push, drop: w.drop, operand: map[types.Object]bool{}, inHelper: true, depth: w.depth + 1}
+	prm = -1
+	idx := 0
+	for _, f := range fd.Decl.Type.Params.List {
+		for _, nm := range f.Names {
+			if b, isBasic := w.info.TypeOf(f.Type).Underlying().(*types.Basic); isBasic && b.Info()&types.IsInteger != 0 {
+				if prm >= 0 {
+					return nil, nil, -1, false // two int parameters: which one counts is not modelled
+				}
+				prm = idx
+				hw.operand[w.info.ObjectOf(nm)] = true
+			}
+			idx++
+		}
+	}
+	outs := hw.block(fd.Decl.Body.List, vmPath{pops: slin{}, pushes: slin{}})
+	if hw.problem != "" || hw.condGuard != "" {
+		w.problem = cf.Name() + ": " + hw.problem
+		return nil, nil, -1, false
+	}
+	first := true
+	for _, o := range outs {
+		if o.terminal {
+			continue
+		}
+		if first {
+			pops, pushes, first = o.pops, o.pushes, false
+			continue
+		}
+		if !(o.pops.eq(pops) && o.pushes.eq(pushes)) {
+			w.problem = cf.Name() + ": its paths have different stack effects"
+			return nil, nil, -1, false
+		}
+	}
+	if first || (len(pops) == 0 && len(pushes) == 0) {
+		return nil, nil, -1, false
+	}
+	return pops, pushes, prm, true
 }
 
 func (w *vmWalker) block(stmts []ast.Stmt, p vmPath) []vmPath {
@@ -388,7 +470,11 @@ func (w *vmWalker) stmt(st ast.Stmt, p vmPath) []vmPath {
 		return []vmPath{w.calls(s, p)}
 	case *ast.ReturnStmt:
 		q := w.calls(s, p)
-		q.terminal = true
+		if w.inHelper {
+			q.left = true
+		} else {
+			q.terminal = true
+		}
 		return []vmPath{q}
 	case *ast.BranchStmt:
 		if s.Tok == token.BREAK {
